@@ -253,6 +253,9 @@ func sanitizeMySQLColumnType(colType string) (string, error) {
 	if !mysqlColumnTypePattern.MatchString(colType) {
 		return "", fmt.Errorf("invalid column type: %s", colType)
 	}
+	if err := validateColumnTypeShape(colType); err != nil {
+		return "", err
+	}
 
 	baseType := strings.Fields(upperType)[0]
 	if idx := strings.Index(baseType, "("); idx != -1 {
